@@ -64,7 +64,7 @@ def mc_cfgs(prop: str, tier: str) -> Tuple[List[Dict[str, Any]], Dict[str, Any]]
         cfgs = [{"decl": [["max_retries", 20 + m], ["retry_on_error", f]], "retry": {**r_lbl, "nores": nr}, "nk": 1}
                 for m in ((0, 1, 3) if q else range(0, 7)) for f in (7, 27, 8) for nr in (True, False)]
         cfgs += [{"decl": [], "retry": {"on": True, "defcount": d, "deflabel": True, "nores": True}, "nk": 1} for d in ((2,) if q else (0, 1, 2, 4))]
-        params = dict(max_ops=6 if q else 9, wl_names=["a"], wl_vids=[9])
+        params = dict(max_ops=6 if q else 7, wl_names=["a"], wl_vids=[9])
     return [_norm(c) for c in cfgs], params
 
 
